@@ -70,6 +70,7 @@ func c16Gen(r *Rng, tier string, idx int) (string, func() string) {
 	if tier == "thorough" {
 		caseTimeout = 240 * time.Second
 	}
+	c16Facts()
 	switch k := idx % 10; {
 	case k < 3:
 		if idx%20 < 10 && k == 2 || r.Chance(12) {
@@ -162,22 +163,265 @@ func hexStr(s string) string { return hexs([]byte(s)) }
 // F: facts from the source
 
 type c16FactSet struct {
-	line    string   // the OUT part of the FACTS line
-	ok      bool     // saveState recognised
-	sites   []string // crash sites in order
-	siteOps []int    // number of file-system steps before each site
+	line    string   // the OUT part of the F line
+	ok      bool     // the step sequence was discovered (dynamically)
+	sites   []string // crash sites in the order saveState reaches them
+	siteOps []int    // number of file-system steps completed before each site
 	writeAt []int    // indices of write steps
 	nops    int
 	adds    []string // keys saveState inserts into the cache
-	nosave  []string // nosaveMessages
+	nosave  []string // lower-cased probe tags a save does not write
+}
+
+// c16Dyn is what the discovery child observed of ONE real saveState (see c16ChildDiscover).
+type c16Dyn struct {
+	Err      string
+	Steps    []string // W:tmp RM:bak LN:main:bak RN:tmp:main ... in the order they took effect
+	Sites    []string
+	SiteOps  []int
+	Adds     []string
+	Saved    []string // lower-cased probe tags present in the saved file
+	NotSaved []string
 }
 
 var c16FactsOnce sync.Once
 var c16FactsVal c16FactSet
 
+// built-in defaults, used only if the discovery itself fails (the F line then reports that)
+var c16DefaultAdds = []string{"CURRENTTIME", "___1", "___2"}
+var c16DefaultNoSave = []string{"alive", "channelnames", "externaltrigger", "newdastard", "numberwritten", "tesmap", "triggerrate"}
+
+// c16Facts ties the model's constants to the code.  PRIMARY: behaviour — one real saveState is run in a
+// child process with an observer at the verifC16Point sites; the directory is photographed at every site
+// and the file-system steps are inferred from the differences; the keys saveState adds and the probe tags
+// it does not write are read off the same run.  SECONDARY: the go/ast reader of saveState, a cross-check
+// that is skipped (and reported as an ok-tag) when it does not recognise the shape of the code.
 func c16Facts() c16FactSet {
-	c16FactsOnce.Do(func() { c16FactsVal = c16Extract(filepath.Join(c16Repo(), "client_updater.go")) })
+	c16FactsOnce.Do(func() {
+		if os.Getenv("DVH_C16_CHILD") != "" { // children never discover (they hold a live viper state)
+			c16FactsVal = c16FactSet{adds: c16DefaultAdds, nosave: c16DefaultNoSave}
+			return
+		}
+		dyn := c16Discover()
+		st := c16Extract(filepath.Join(c16Repo(), "client_updater.go"))
+		f := c16FactSet{adds: c16DefaultAdds, nosave: c16DefaultNoSave}
+		var sb strings.Builder
+		if dyn.Err != "" {
+			fmt.Fprintf(&sb, "dyn FAILED %s", strings.Join(strings.Fields(dyn.Err), "_"))
+		} else {
+			f.ok = true
+			f.sites, f.siteOps, f.adds, f.nosave, f.nops = dyn.Sites, dyn.SiteOps, dyn.Adds, dyn.NotSaved, len(dyn.Steps)
+			for i, st := range dyn.Steps {
+				if strings.HasPrefix(st, "W:") {
+					f.writeAt = append(f.writeAt, i)
+				}
+			}
+			fmt.Fprintf(&sb, "dyn steps %d %s sites %d", len(dyn.Steps), strings.Join(dyn.Steps, " "), len(dyn.Sites))
+			for i, s := range dyn.Sites {
+				fmt.Fprintf(&sb, " %s %d", s, dyn.SiteOps[i])
+			}
+			fmt.Fprintf(&sb, " adds %d %s notsaved %d %s saved %d %s", len(dyn.Adds), strings.Join(dyn.Adds, " "),
+				len(dyn.NotSaved), strings.Join(dyn.NotSaved, " "), len(dyn.Saved), strings.Join(dyn.Saved, " "))
+		}
+		if st.ok {
+			fmt.Fprintf(&sb, " static ok %s", st.line)
+		} else {
+			fmt.Fprintf(&sb, " static unrecognised %s", strings.Join(strings.Fields(strings.TrimPrefix(st.line, "UNRECOGNISED ")), "_"))
+		}
+		f.line = strings.Join(strings.Fields(sb.String()), " ")
+		c16FactsVal = f
+	})
 	return c16FactsVal
+}
+
+// c16Discover runs (once per work directory) the discovery child and returns its report.
+func c16Discover() c16Dyn {
+	var d c16Dyn
+	cache := filepath.Join(c16Work(), "facts_dyn.json")
+	read := func() bool {
+		b, err := os.ReadFile(cache)
+		return err == nil && json.Unmarshal(b, &d) == nil
+	}
+	if read() {
+		return d
+	}
+	lk, err := os.OpenFile(cache+".lock", os.O_CREATE|os.O_RDWR, 0664)
+	if err != nil {
+		return c16Dyn{Err: "lock " + err.Error()}
+	}
+	defer lk.Close()
+	syscall.Flock(int(lk.Fd()), syscall.LOCK_EX)
+	defer syscall.Flock(int(lk.Fd()), syscall.LOCK_UN)
+	if read() {
+		return d
+	}
+	home := filepath.Join(c16Work(), fmt.Sprintf("discover_%d", os.Getpid()))
+	os.RemoveAll(home)
+	defer os.RemoveAll(home)
+	dir := filepath.Join(home, ".dastard")
+	os.MkdirAll(dir, 0775)
+	// a directory in which every step of a save has a visible effect
+	os.WriteFile(filepath.Join(dir, "config.yaml"), []byte("statelabel: old-run\n"), 0664)
+	os.WriteFile(filepath.Join(dir, "config.yaml.bak"), []byte("statelabel: older-run\n"), 0664)
+	self, _ := os.Executable()
+	tmpOut := fmt.Sprintf("%s.%d", cache, os.Getpid())
+	cmd := exec.Command(self)
+	cmd.Env = append(os.Environ(), "DVH_C16_CHILD=discover", "HOME="+home, "DVH_C16_OUT="+tmpOut)
+	var se bytes.Buffer
+	cmd.Stderr = &se
+	if err := cmd.Run(); err != nil {
+		return c16Dyn{Err: "child " + err.Error() + " " + panicClass(se.String())}
+	}
+	if err := os.Rename(tmpOut, cache); err != nil || !read() {
+		return c16Dyn{Err: "no report"}
+	}
+	return d
+}
+
+// c16ChildDiscover (child process): one real saveState, observed.
+func c16ChildDiscover() {
+	silenceStdout()
+	home, _ := os.UserHomeDir()
+	dir := filepath.Join(home, ".dastard")
+	var rep c16Dyn
+	finish := func() {
+		b, _ := json.Marshal(rep)
+		os.WriteFile(os.Getenv("DVH_C16_OUT"), b, 0664)
+		os.Exit(0)
+	}
+	viper.SetConfigName("config")
+	viper.AddConfigPath(dir)
+	if err := viper.ReadInConfig(); err != nil {
+		rep.Err = "read-config"
+		finish()
+	}
+	type snap struct {
+		c  [3]string // content of main, tmp, bak ("" = absent, "E" = empty)
+		fi [3]os.FileInfo
+	}
+	names := []string{"config.yaml", "config.tmp.yaml", "config.yaml.bak"}
+	take := func() snap {
+		var s snap
+		for i, n := range names {
+			if b, err := os.ReadFile(filepath.Join(dir, n)); err == nil {
+				s.c[i] = "E"
+				if len(b) > 0 {
+					s.c[i] = c16Canon(b)
+				}
+				s.fi[i], _ = os.Stat(filepath.Join(dir, n))
+			}
+		}
+		return s
+	}
+	// steps that turn directory a into directory b (site boundaries: no write is in flight)
+	infer := func(a, b snap) []string {
+		var st []string
+		isNew := func(c string) bool {
+			return c != "" && c != "E" && c != a.c[0] && c != a.c[2] && !strings.Contains(c, "old-run")
+		}
+		const M, T, B = 0, 1, 2
+		mainFromTmp := b.c[M] != a.c[M] && a.c[T] != "" && b.c[M] == a.c[T] && b.c[T] == ""
+		if b.c[T] != a.c[T] && !(mainFromTmp && b.c[T] == "") {
+			switch {
+			case b.c[T] == "":
+				st = append(st, "RM:tmp")
+			case isNew(b.c[T]):
+				st = append(st, "W:tmp")
+			default:
+				st = append(st, "?:tmp-became-"+c16Short(b.c[T]))
+			}
+		}
+		mainToBak := false
+		if b.c[B] != a.c[B] {
+			switch {
+			case b.c[B] == "":
+				st = append(st, "RM:bak")
+			case b.c[B] == a.c[M] && a.c[M] != "":
+				if a.c[B] != "" {
+					st = append(st, "RM:bak")
+				}
+				switch {
+				case b.c[M] == "" || (b.c[M] != a.c[M] && !mainFromTmp):
+					st = append(st, "RN:main:bak")
+					mainToBak = true
+				case b.fi[B] != nil && b.fi[M] != nil && os.SameFile(b.fi[B], b.fi[M]) || mainFromTmp && a.fi[M] != nil && os.SameFile(b.fi[B], a.fi[M]):
+					st = append(st, "LN:main:bak")
+				default:
+					st = append(st, "CP:main:bak")
+				}
+			default:
+				st = append(st, "?:bak-became-"+c16Short(b.c[B]))
+			}
+		}
+		if b.c[M] != a.c[M] {
+			switch {
+			case mainFromTmp:
+				st = append(st, "RN:tmp:main")
+			case b.c[M] == "" && mainToBak:
+			case b.c[M] == "":
+				st = append(st, "RM:main")
+			case isNew(b.c[M]):
+				st = append(st, "W:main")
+			default:
+				st = append(st, "?:main-became-"+c16Short(b.c[M]))
+			}
+		}
+		return st
+	}
+	probe := map[string]interface{}{}
+	before := map[string]interface{}{}
+	for i, t := range c16Tags {
+		probe[t] = 1000 + i
+		before[t] = 1000 + i
+	}
+	prev := take()
+	dastard.VerifC16OnPoint(func(site string) {
+		cur := take()
+		rep.Steps = append(rep.Steps, infer(prev, cur)...)
+		rep.Sites = append(rep.Sites, site)
+		rep.SiteOps = append(rep.SiteOps, len(rep.Steps))
+		prev = cur
+	})
+	dastard.VerifC16SaveState(probe)
+	dastard.VerifC16OnPoint(nil)
+	rep.Steps = append(rep.Steps, infer(prev, take())...)
+	if len(rep.Sites) == 0 {
+		rep.Err = "saveState reached no verifC16Point site"
+		finish()
+	}
+	isAdd := map[string]bool{}
+	for k, v := range probe { // inserted, or overwritten with a value of saveState's own
+		if b, had := before[k]; !had || b != v {
+			rep.Adds = append(rep.Adds, k)
+			isAdd[strings.ToLower(k)] = true
+		}
+	}
+	sort.Strings(rep.Adds)
+	var m map[string]interface{}
+	b, err := os.ReadFile(filepath.Join(dir, "config.yaml"))
+	if err != nil || yaml.Unmarshal(b, &m) != nil {
+		rep.Err = "saved file unreadable"
+		finish()
+	}
+	for _, t := range c16Tags {
+		k := strings.ToLower(t)
+		if isAdd[k] {
+			continue
+		}
+		if _, ok := m[k]; ok {
+			rep.Saved = append(rep.Saved, k)
+		} else {
+			rep.NotSaved = append(rep.NotSaved, k)
+		}
+	}
+	sort.Strings(rep.Saved)
+	sort.Strings(rep.NotSaved)
+	finish()
+}
+
+func c16Short(c string) string {
+	sum := sha1.Sum([]byte(c))
+	return hex.EncodeToString(sum[:3])
 }
 
 func c16MapKeys(f *ast.File, name string) ([]string, bool) {
@@ -521,7 +765,7 @@ var c16Tags = []string{
 	"STATUS", "WRITING", "TRIGGER", "GROUPTRIGGER", "TRIGCOUPLING", "MIX", "STATELABEL", "TRIANGLE", "SIMPULSE",
 	"LANCERO", "ABACO", "ROACH", "TESMAPFILE", "DATADROP", "RAWDATABLOCK", // persistent
 	"CHANNELNAMES", "ALIVE", "TRIGGERRATE", "NUMBERWRITTEN", "TESMAP", "EXTERNALTRIGGER", // not saved
-	"CURRENTTIME", "___1", "___3", // never published
+	"CURRENTTIME", "___1", "___2", "___3", "___4", "___5", // never published
 	"NEWDASTARD", // published, never remembered
 	"XTOPIC", "Y2", "ZZ_9",
 }
@@ -765,7 +1009,11 @@ func c16RunHistory(ops []c16Op, mainf string) string {
 		case "U":
 			dastard.VerifC16SendUpdate(o.tag, o.val)
 			if o.tag != "SENDALL" && o.tag != "NEWDASTARD" {
-				latest[strings.ToLower(o.tag)] = c16JSON(o.val)
+				// (a value that does not marshal reads as "": it replaces a stored text, but is not
+				// stored when nothing was stored before — the stopping rule must wait for the former)
+				if k, j := strings.ToLower(o.tag), c16JSON(o.val); latest[k] != j {
+					latest[k] = j
+				}
 			}
 		case "A":
 			live, ok := barrier()
@@ -831,7 +1079,7 @@ func c16WaitSaved(mainf, label string, max time.Duration) ([][2]string, bool) {
 		if s, _ := m["statelabel"].(string); s != label {
 			continue
 		}
-		return c16SavedKeys(m), true
+		return nil, true
 	}
 	return nil, false
 }
@@ -842,7 +1090,7 @@ func c16WaitSaved(mainf, label string, max time.Duration) ([][2]string, bool) {
 func c16WaitQuiet(mainf string, latest map[string]string, max time.Duration) ([][2]string, bool) {
 	facts := c16Facts()
 	want := map[string]string{}
-	if facts.ok {
+	{
 		skip := map[string]bool{}
 		for _, k := range facts.nosave {
 			skip[k] = true
@@ -851,13 +1099,12 @@ func c16WaitQuiet(mainf string, latest map[string]string, max time.Duration) ([]
 			skip[strings.ToLower(a)] = true
 		}
 		for k, v := range latest {
-			if !skip[k] && v != "" {
+			if !skip[k] {
 				want[k] = v
 			}
 		}
 	}
-	start := time.Now()
-	deadline := start.Add(max)
+	deadline := time.Now().Add(max)
 	var last [][2]string
 	got := false
 	for {
@@ -869,13 +1116,13 @@ func c16WaitQuiet(mainf string, latest map[string]string, max time.Duration) ([]
 			for _, e := range last {
 				have[e[0]] = e[1]
 			}
-			all := facts.ok
+			all := true
 			for k, v := range want {
-				if have[k] != v {
+				if h, present := have[k]; !present || h != v {
 					all = false
 				}
 			}
-			if all || (!facts.ok && time.Since(start) > 2600*time.Millisecond) {
+			if all {
 				return last, true
 			}
 		}
@@ -1054,6 +1301,9 @@ func c16SaveValuesK(seed uint64, j int) map[string]interface{} {
 }
 
 func c16ChildMain() {
+	if os.Getenv("DVH_C16_CHILD") == "discover" {
+		c16ChildDiscover() // never returns
+	}
 	var spec c16ChildSpec
 	if err := json.Unmarshal([]byte(os.Getenv("DVH_C16_SPEC")), &spec); err != nil {
 		fmt.Fprintln(os.Stderr, "bad spec", err)
